@@ -252,6 +252,11 @@ func jobsFor(prop, tier string) []Job {
 			c4.Fn = "VH_CONC4"
 			c4.OnlyAsserts = []string{"C05."}
 			js = append(js, c4)
+			// a reader whose snapshot predates the second commit reads after that commit was acknowledged,
+			// while the flush of the second memtable is under way (schedules explored from the acknowledgement on)
+			oz := mk("conc-oldsnapshot-reader-zone-dev2", params("WRITERS", 1, "COMMITS", 2, "IBMAX", 0, "AFTERACK", 1, "SECOND", 1, "ZONE", 1), 2, false)
+			oz.ZoneOnly = true
+			js = append(js, oz)
 			c5 := mk("conc5-two-readers-on-sstables-dev1", params(), 1, false)
 			c5.Fn = "VH_CONC5"
 			js = append(js, c5)
@@ -266,7 +271,7 @@ func jobsFor(prop, tier string) []Job {
 				j := mk("conc-1w2c-dev2", params("WRITERS", 1, "COMMITS", 2, "IBMAX", 0, "AFTERACK", 1), 2, false)
 				j.Cap = 1500 * time.Second
 				return j
-			}(),
+			}(), mk("conc-1w2c-oldsnapshot-reader-dev2", params("WRITERS", 1, "COMMITS", 2, "IBMAX", 0, "AFTERACK", 1, "SECOND", 1), 2, false),
 				mk("conc-2w2c-dev1", params("WRITERS", 2, "COMMITS", 2, "IBMAX", 1), 1, false),
 				mk("conc-1w3c-closeearly-dev1", params("WRITERS", 1, "COMMITS", 3, "IBMAX", 1, "CLOSE_EARLY", 1), 1, false))
 		}
